@@ -1,5 +1,6 @@
 """C19 - thread-safe queue / thread pool under every schedule with <= k deviations (DESIGN.md 5, C19)."""
 import os
+VERIF = os.path.dirname(os.path.dirname(os.path.dirname(os.path.abspath(__file__))))
 LEVEL = "model_checking"
 RULE = ("stateless exploration of the real Queue<int>/Pool code under the vsched cooperative scheduler: every interleaving at mutex "
         "lock (thorough: and unlock), atomic-flag hook, thread create points, every waiter choice of notify_one and every "
@@ -20,7 +21,8 @@ DEADLINE = {"quick": 200, "thorough": 1500}
 
 def build(ctx):
     vs = ctx.vsched_obj()
-    return {"h19": ctx.build("h19", ["h19.cpp"], flags=["-fno-access-control"], opt="-O1", objects=[vs]),
+    # atomic_points.hpp: every std::atomic written in the library (or added to it by a change) is a scheduling point, hooked or not
+    return {"h19": ctx.build("h19", ["h19.cpp"], flags=["-fno-access-control", "-include", os.path.join(VERIF, "engine", "vsched", "atomic_points.hpp")], opt="-O1", objects=[vs]),
             "h19tsan": ctx.build_tsan_free("h19tsan", ["h19.cpp"], flags=["-fno-access-control"])}
 
 
